@@ -50,4 +50,27 @@ def ift1_ps (n : Nat) (wi : Nat → C) (ninv : C) (nC : C) (delta_f : C) (x : Na
 def ift2_ps (n : Nat) (wi : Nat → C) (ninv nC : C) (delta_f : C) (x : Nat → Nat → C) : Nat → Nat → C :=
   fun a b => ift1_ps n wi ninv nC delta_f (fun a' => ift1_ps n wi ninv nC delta_f (fun b' => x a' b') b) a
 
+
+/-! ### real-input variants (`rft`, `irft`): half-spectra of `n/2+1` bins -/
+
+/-- `numpy.fft.rfft`: bins `0 … n/2` of the DFT (only those are read) -/
+def rfft (n : Nat) (w : Nat → C) (x : Nat → C) : Nat → C := dft n w x
+
+/-- the full spectrum `numpy.fft.irfft` reconstructs from a half-spectrum for output length `n`:
+bins above `n/2` are the conjugates of their mirror bins -/
+def hermComplete (n : Nat) (conj : C → C) (H : Nat → C) : Nat → C :=
+  fun k => if k ≤ n / 2 then H k else conj (H (n - k))
+
+/-- `numpy.fft.irfft(H)` with the default output length `n = 2 (m − 1)` -/
+def irfft (n : Nat) (wi : Nat → C) (ninv : C) (conj : C → C) (H : Nat → C) : Nat → C :=
+  idft n wi ninv (hermComplete n conj H)
+
+/-- `fouriertransform.rft`: `fftshift(rfft(fftshift(data))) * delta` (the half-spectrum of length `n/2+1` is shifted too) -/
+def rft (n : Nat) (w : Nat → C) (delta : C) (x : Nat → C) : Nat → C :=
+  fun k => fftshift (n / 2 + 1) (rfft n w (fftshift n x)) k * delta
+
+/-- `fouriertransform.irft` on a half-spectrum of length `m`: `ifftshift(irfft(ifftshift(data))) * 2*(m-1) * delta_f` -/
+def irft (m : Nat) (wi : Nat → C) (ninv : C) (conj : C → C) (twoM1 : C) (delta_f : C) (H : Nat → C) : Nat → C :=
+  fun j => ifftshift (2 * (m - 1)) (irfft (2 * (m - 1)) wi ninv conj (ifftshift m H)) j * twoM1 * delta_f
+
 end AoVerif.Fourier
